@@ -176,7 +176,11 @@ func checkC19(c c19Case) (out Outcome, err error) {
 		}
 	case c.Input == "impulse":
 		p := c.Pos % N
-		for k := 0; k < N; k++ {
+		step := 1
+		if N > 1<<22 {
+			step = 4099
+		}
+		for k := 0; k < N; k += step {
 			cmp(k, cmplx.Rect(1, -2*math.Pi*float64(int64(p)*int64(k)%int64(N))/float64(N)))
 		}
 	case c.Input == "tone":
@@ -291,11 +295,12 @@ func TestC19Sweep(t *testing.T) {
 	for a := -3; a <= envInt("VERIF_HI", 3000); a++ {
 		cases = append(cases, c19Case{Kind: "new", Arg: a})
 	}
-	for _, a := range []int{1 << 27, 1<<27 + 1, 1 << 40} {
-		if a == 1<<27 {
-			continue // constructing it would allocate ~3 GB: not executed (DESIGN section 9)
-		}
-		cases = append(cases, c19Case{Kind: "new", Arg: a})
+	for _, a := range []int{1 << 27, 1<<27 - 1, 1<<27 + 1, 1 << 40} {
+		cases = append(cases, c19Case{Kind: "new", Arg: a}) // 2^27 itself must be accepted (3 GB of tables, ~10 s)
+	}
+	if thorough() {
+		// a full-size transform: unit impulse at a drawn position, analytic spectrum checked on every 4099-th bin + Parseval
+		cases = append(cases, c19Case{Kind: "transform", Exp: 27, Input: "impulse", Pos: 1<<27 - 12345})
 	}
 	for e := 13; e <= 17; e++ {
 		cases = append(cases, c19Case{Kind: "transform", Exp: e, Input: "random", Seed: uint64(e)}, c19Case{Kind: "transform", Exp: e, Input: "impulse", Pos: 1<<uint(e) - 3})
